@@ -18,8 +18,8 @@ Inductive e2e_delivery :=
 
 Definition e2e_msg (pivs : list Z) (d : e2e_delivery) : rp_msg :=
   match d with
-  | E2eDeliver i e => Build_rp_msg (nth i pivs 0) RpGenuine e
-  | E2eForge s => Build_rp_msg s RpForged RpEchoNone
+  | E2eDeliver i e => Build_rp_msg (nth i pivs 0) RpGenuine e RpRequest
+  | E2eForge s => Build_rp_msg s RpForged RpEchoNone RpRequest
   end.
 
 Definition e2e_valid (n : nat) (d : e2e_delivery) : Prop :=
@@ -111,7 +111,7 @@ Qed.
    window; Echo is ignored otherwise.) *)
 
 Definition e2e_in_order (pivs : list Z) : list rp_msg :=
-  map (fun p => Build_rp_msg p RpGenuine RpEchoOk) pivs.
+  map (fun p => Build_rp_msg p RpGenuine RpEchoOk RpRequest) pivs.
 
 Lemma e2e_abs_in_order : forall W b12 l a,
   StronglySorted Z.lt l ->
@@ -127,9 +127,9 @@ Proof.
       - specialize (Hhi eq_refl). apply andb_true_intro. split; [lia|].
         apply orb_true_intro. left. lia.
       - rewrite andb_true_r. lia. }
-    assert (Hstep : rp_abs_recv W b12 a (Build_rp_msg p RpGenuine RpEchoOk) =
+    assert (Hstep : rp_abs_recv W b12 a (Build_rp_msg p RpGenuine RpEchoOk RpRequest) =
                     (RpAccept, rp_abs_accept a p)).
-    { unfold rp_abs_recv. cbn [rp_m_seq rp_m_auth rp_m_echo]. rewrite Hf. cbn [negb].
+    { unfold rp_abs_recv, rp_abs_recv_req. cbn [rp_m_seq rp_m_auth rp_m_echo rp_m_kind]. rewrite Hf. cbn [negb].
       destruct (rp_a_armed a); [reflexivity|]. destruct b12; reflexivity. }
     rewrite Hstep.
     specialize (IH (rp_abs_accept a p) Hst).
